@@ -506,6 +506,10 @@ let mon_srv prop case impl =
            | _ :: rel -> Hashtbl.replace last_upload (String.concat "/" (List.map string_of_bytes rel))
                            (fp_text (spec_content (String.sub r.scont 1 (String.length r.scont - 1))))
            | [] -> ())
+        | Some (Wrq (name, _, _)) when r.sreply <> "reply=none" && not (is_refusal (fst (reply_hex r.sreply))) ->
+          (* a later upload of the same path was accepted and did not complete (aborted by its client, or failed):
+             the path now belongs to that transfer (what it leaves behind is C13's subject), the earlier content is gone *)
+          Hashtbl.remove last_upload (rel_of name)
         | _ -> ()) recs;
       Hashtbl.iter (fun rel f -> match List.assoc_opt rel final_entries with
         | Some g when g = f -> ()
@@ -746,7 +750,12 @@ let run_conc toks =
     let cl = Array.of_list (String.split_on_char ';' clients) in
     let results = Array.make (Array.length cl) "unfinished" in
     let started = Array.make (Array.length cl) false in
+    (* rounds of the scripted client until its transfer is over: the request, then one per window *)
+    let needed = Array.make (Array.length cl) 1 in
+    let rounds = Array.make (Array.length cl) 0 in
+    let windows o len = let b = int_of_n o.wo_blk and w = int_of_n o.wo_ws in let nb = len / b + 1 in (nb + w - 1) / w in
     let start i =
+      rounds.(i) <- rounds.(i) + 1;
       if not started.(i) then begin
         started.(i) <- true;
         let f = String.split_on_char ':' cl.(i) in
@@ -763,6 +772,7 @@ let run_conc toks =
               | Some (ASpawnSend (path, o, rep, check)) ->
                 (match stat !root path with
                  | Some (NFile content) ->
+                   needed.(i) <- 1 + windows o (List.length content);
                    let (datas, ph) = run_download o rep check content in
                    let got = List.concat (List.filteri (fun k _ -> k mod (int_of_n rep) = 0) (List.map snd datas)) in
                    results.(i) <- (match ph with SDone OutOk -> "got:" ^ fp_text got | _ -> "stalled:" ^ fp_text got)
@@ -772,6 +782,7 @@ let run_conc toks =
                 (match create_file !root path [] with
                  | Some r0 ->
                    root := r0;
+                   needed.(i) <- 1 + windows o (List.length content);
                    let ((file, _), ph) = run_upload o rep clean content in
                    (match file with Some fl -> (match create_file !root path fl with Some r1 -> root := r1 | None -> ()) | None -> root := remove_file !root path);
                    results.(i) <- (match ph with RDone OutOk -> "acked" | _ -> "noack:?")
@@ -804,8 +815,9 @@ let run_conc toks =
                    | None -> "iT=none") :: !out
              | _ -> out := "iT=LISTENER-DIED" :: !out)
           else
-            (* multi-port: the transfer socket is connected to its peer; the kernel drops other sources - or the endpoint is already closed *)
-            out := (if results.(i) = "none" || starts_with results.(i) "error" then "iT=skipped" else "iT=none") :: !out
+            (* multi-port: the transfer socket is connected to its peer and the kernel drops other sources; once the
+               transfer is over its port belongs to nobody (or to anybody): the harness sends nothing there *)
+            out := (if results.(i) = "none" || starts_with results.(i) "error" || rounds.(i) >= needed.(i) then "iT=skipped" else "iT=none") :: !out
         end) (String.split_on_char ',' sched);
     Array.iteri (fun i _ -> start i) cl;
     let res = List.rev !out @ Array.to_list (Array.mapi (fun i r -> Printf.sprintf "c%d=%s" i r) results) in
